@@ -270,7 +270,7 @@ theorem Insp.consIff_final (h0 : ConsIff db0) (I : Insp cfg mv db0 db1 triples c
         intro o ho e'
         exact hA' o ho (by rw [e', e, u1])
       · exfalso
-        obtain ⟨t, ht, et⟩ := I.fromAcc c1 hc1 hcr
+        obtain ⟨t, ht, et, -⟩ := I.fromAcc c1 hc1 hcr
         obtain ⟨os, hos, hsub⟩ := (allocObjectsAll_ok hO).2 t ht
         have hnil : os = [] := by
           cases os with
